@@ -46,9 +46,19 @@ def find_pattern(e, vs):
     def size(t):
         return 1 + sum(size(c) for c in t.children())
 
+    BAD = (z3.Z3_OP_ITE, z3.Z3_OP_AND, z3.Z3_OP_OR, z3.Z3_OP_NOT, z3.Z3_OP_EQ, z3.Z3_OP_LE, z3.Z3_OP_GE, z3.Z3_OP_LT, z3.Z3_OP_GT,
+           z3.Z3_OP_IMPLIES, z3.Z3_OP_DISTINCT)
+    clean = {}
+
+    def is_clean(t):
+        """no boolean structure / if-then-else below t (z3 rejects such patterns)"""
+        k = t.get_id()
+        if k not in clean:
+            clean[k] = not (z3.is_app(t) and t.decl().kind() in BAD) and not z3.is_quantifier(t) and all(is_clean(c) for c in t.children())
+        return clean[k]
+
     def ok_pattern(t):
-        # no interpreted arithmetic on the path to the variables except simple offsets is risky; accept any UF application
-        return z3.is_app(t) and t.decl().kind() == z3.Z3_OP_UNINTERPRETED and t.num_args() > 0
+        return z3.is_app(t) and t.decl().kind() == z3.Z3_OP_UNINTERPRETED and t.num_args() > 0 and is_clean(t)
 
     def walk(t):
         if not vars_in(t) >= ids:
